@@ -56,7 +56,7 @@ func (in *Inst) callInner(x *ssa.Call, st *State) {
 			in.setResult(x, in.packResults(rs, x.Type()))
 			return
 		}
-		if con := e.W.funcValueContract(c.Value.Type()); con != nil {
+		if con := e.W.funcValueContract(c.Value.Type()); con != nil && (!e.abstract || con.AbstractToo || e.W.ghostRelevantTo(con, e.top.con)) {
 			sig := c.Value.Type().Underlying().(*types.Signature)
 			rs := in.applyContract(con, args, sig, nil, st, x.Pos(), x.Type())
 			in.setResult(x, rs)
